@@ -268,11 +268,11 @@ def run_unit(unit):
                     break
                 with open(outf, "a") as f:
                     f.write(json.dumps(dict(case=nxt[0], status="crash", msg="process died (rc=%d) %s" % (rc, out[-200:]), log=[], note="")) + "\n")
-            if rc == 98 and crashed:        # sanitizer report: put its summary line into the record
+                last = nxt[0]
+            elif rc == 98:        # sanitizer report: put its summary line into the crash record the death callback wrote
                 summ = [l for l in out.splitlines() if "SUMMARY:" in l or "runtime error:" in l]
                 if summ:
                     patch_last_crash(outf, summ[0].strip()[:300])
-                last = nxt[0]
             start_after = last
         res["records"] += recs
         return res
